@@ -938,6 +938,15 @@ def eval_random(ctx, eqn, ins):
     name = eqn.primitive.name
     if name in ("random_wrap", "random_unwrap"):
         return [ins[0]]
+    if name == "random_seed" and ins[0].conc:
+        # PRNGKey(<constant>) inside the traced code is a CONSTANT key, not an arbitrary one: evaluate it with the real primitive (a
+        # generator that stores PRNGKey(0) in the state instead of a key derived from the reset key must be visible as a constant)
+        try:
+            r = eqn.primitive.bind(jnp.asarray(ins[0].a), **eqn.params)
+            data = np.asarray(jax.random.key_data(r)).astype(np.uint32)
+            return [SV(data.reshape(aval_shape(eqn.outvars[0].aval)), np.uint32)]
+        except Exception:  # noqa  (fall back to the symbolic stub)
+            pass
     if name == "random_seed":
         mk = (name, keyid(ins[0]), str(eqn.params))
         if mk not in ctx.memo:
